@@ -352,6 +352,9 @@ def binop(I, op, a, b):
     if ka is None or kb is None:
         I.raise_builtin("TypeError", "unsupported operand types for %s: %s, %s" % (op.__class__.__name__, ka, kb))
     x, y = num_term(I, a, ka), num_term(I, b, kb)
+    if ka == "int" and kb == "int" and isinstance(op, ast.Div):
+        ka = kb = "real"
+        x, y = z3.ToReal(x), z3.ToReal(y)
     if ka == "int" and kb == "int" and not isinstance(op, ast.Div):
         if isinstance(op, ast.Add):
             return Sym(VInt(S(x + y)))
@@ -368,8 +371,22 @@ def binop(I, op, a, b):
                 raise OutOfReach("floor division by a possibly negative symbolic divisor")
             return Sym(VInt(S(x / y))) if isinstance(op, ast.FloorDiv) else Sym(VInt(S(x % y)))
         raise OutOfReach("int op %s" % op.__class__.__name__)
-    # real arithmetic (floats are modelled elsewhere; here exact reals)
-    raise OutOfReach("float arithmetic in generic engine (%s)" % op.__class__.__name__)
+    # floats: exact real arithmetic (machine rounding is NOT modelled: listed as an assumption)
+    if ka == "int":
+        x = z3.ToReal(x)
+    if kb == "int":
+        y = z3.ToReal(y)
+    if isinstance(op, ast.Add):
+        return Sym(VReal(S(x + y)))
+    if isinstance(op, ast.Sub):
+        return Sym(VReal(S(x - y)))
+    if isinstance(op, ast.Mult):
+        return Sym(VReal(S(x * y)))
+    if isinstance(op, ast.Div):
+        if I.prover.fork(y == 0):
+            I.raise_builtin("ZeroDivisionError", "float division by zero")
+        return Sym(VReal(S(x / y)))
+    raise OutOfReach("float operation %s" % op.__class__.__name__)
 
 
 def percent_format(I, fmt, arg):
@@ -508,9 +525,29 @@ def getattr_(I, obj, name, default=MISSING):
                 return r
         if ca is not None or owner is not None:
             return bind_class_attr(I, ca, obj, cls)
+        if name == "__getattribute__":
+            # object.__getattribute__: the normal lookup, without the __getattr__ fallback
+            def plain(I_, a, k):
+                nm = a[0]
+                if not isinstance(nm, str):
+                    raise OutOfReach("__getattribute__ with symbolic name")
+                ca2, owner2 = cls.lookup(nm)
+                if isinstance(obj, IObject) and nm in obj.fields:
+                    return obj.fields[nm]
+                if owner2 is not None:
+                    return getattr_(I_, obj, nm)
+                I_.raise_builtin("AttributeError", "%r object has no attribute %r" % (cls.name, nm))
+            return Native("__getattribute__", plain)
         ga, _ = cls.lookup("__getattr__")
         if isinstance(ga, IFunction):
-            return I.call(IBound(ga, obj), [name], {})
+            if default is MISSING:
+                return I.call(IBound(ga, obj), [name], {})
+            try:
+                return I.call(IBound(ga, obj), [name], {})
+            except IRaise as e:      # getattr(o, name, default) swallows AttributeError from __getattr__
+                if isinstance(e.value, IObject) and e.value.cls.issubclass(I.world.builtins["AttributeError"]):
+                    return default
+                raise
         nat = getattr(cls, "native_getattr", None)
         if nat is not None:
             r = nat(I, obj, name)
